@@ -22,7 +22,7 @@ from sim.world import Run
 
 ID = "C15"
 LEVEL = "exploration"
-RUNS = {"quick": 12000, "thorough": 200000}
+RUNS = {"quick": 12000, "thorough": 1200000}
 BUDGET = {"quick": 100.0, "thorough": 3300.0}
 RULE = ("run i = ~12 secured frames with APDU lengths starting at 2 + (i mod 239) (every length 2..240 is reached within 239 "
         "runs), random keys / addresses / 48-bit sequence numbers, both algorithms, from three kinds of senders, over a "
